@@ -113,6 +113,28 @@ theorem accept_implies_usable_partial (s : Option Settings) (pw : Bool)
       obtain ⟨hkr, hka⟩ := construct_row_args krow kargs k.userKdf hkcon
       simp [hcu, hkey, hkr, hka, hku]
 
+/-- **The full statement, for a source that carries the candidate validation patch.**  `d12FixedInSource` (decidable, computed
+from the regenerated tables) says: `blake2b.__init__` and `gclmulchunker.__init__` start with the guards of the patch and
+`_make_config` checks the adapter kind of the hashing and chunking slots.  It is FALSE for the unpatched `/repo` (this
+theorem is then vacuous and the property stays `_partial`); for a patched `/repo` it is true by `decide` and this IS
+`accept_implies_usable`.  (For another shape of patch use `checkedElsewhere_of_source_checks`, whose hypotheses are semantic.) -/
+theorem accept_implies_usable_if_fixed (hfix : d12FixedInSource = true) (s : Option Settings) (pw : Bool)
+    (hacc : accept s pw = true) : usable (runInit s pw).1 = true := by
+  simp only [d12FixedInSource, Bool.and_eq_true, decide_eq_true_eq, beq_iff_eq] at hfix
+  obtain ⟨⟨⟨hgb, hgc⟩, hk1⟩, hk2⟩ := hfix
+  apply accept_implies_usable_partial s pw hacc
+  have hacc' := hacc
+  unfold accept runInit at hacc'
+  rw [init_order_bridge] at hacc'
+  generalize hr : runStages s pw canonicalStages {} = r at hacc'
+  obtain ⟨st, oe⟩ := r
+  cases oe with
+  | some e => simp at hacc'
+  | none =>
+    refine checkedElsewhere_of_source_checks hk1 hk2 ?_ ?_ s pw st hr
+    · rw [hgb]; intro a h; simpa [minDigestBytes] using blake2bFix_sound a h
+    · rw [hgc]; exact chunkerFix_sound
+
 /-! ### the full statement is false today: negation witnesses (D12), each also replayed on the real code -/
 
 def witHashLength : Option Settings :=
